@@ -103,9 +103,7 @@ def cas_body():
         assert wins == [first], f"the second claimer won: {res}"
         assert final == TrialState.RUNNING
     elif pre == "RUNNING":
-        # the creator of a RUNNING trial already owns it (journal returns True to the owner: recorded under C01); nobody else may get True
-        others = [w for w in wins if not (kind == "journal" and (c1 if w == "c1" else c2) is creator)]
-        assert not others, f"claim of an already RUNNING trial succeeded for {others}: {res}"
+        assert not wins, f"claim of an already RUNNING trial succeeded for {wins}: {res}"
         assert final == TrialState.RUNNING
     else:
         assert not wins and final == TrialState[pre], f"claim of a finished trial: {res}, final {final}"
